@@ -25,9 +25,15 @@ type wop struct {
 	target int    // channel index; -1 closed channel; -2 foreign channel; -3 nil
 	raw    bool   // frames: raw message instead of decoded
 	other  bool   // frames: the frame's version is the opposite of the node's output version
+	unenc  bool   // messages: a raw message whose id the dialect does not contain; no link can encode it
 }
 
-func (o wop) String() string { return fmt.Sprintf("%s(%d)", o.kind, o.target) }
+func (o wop) String() string {
+	if o.unenc {
+		return fmt.Sprintf("%s(%d, cannot be encoded)", o.kind, o.target)
+	}
+	return fmt.Sprintf("%s(%d)", o.kind, o.target)
+}
 
 type c11World struct {
 	nch           int
@@ -72,7 +78,7 @@ func fwdFrame(p, i int, v2, raw bool) (frame.Frame, ref.Frame) {
 
 func TestC11FanOut(t *testing.T) {
 	rec := evid.New(t, "C11", "2..5 channels on custom transports, 1..4 producer goroutines each running a generated program of WriteMessage/WriteFrame x All/To/Except with items tagged (producer, counter), targets including a closed channel, a channel of another node and nil; flow control keeps every channel's backlog below the 64-item queue; incoming traffic and a paced consumer run concurrently; per channel every transport write must be exactly one whole frame, each addressed item appears exactly once, nothing else appears, per (producer, channel) order is submission order, forwarded frames keep their header, originated messages carry the node's ids and the link's own gapless sequence; non-trivial = >=2 producers on >=3 channels with at least one Except and one To; distinct by hash of the programs")
-	rec.Require("2+producers-3+channels-to-except", "closed-target", "foreign-target", "v1", "v2", "signed", "after-overflow-and-recovery")
+	rec.Require("2+producers-3+channels-to-except", "closed-target", "foreign-target", "v1", "v2", "signed", "after-overflow-and-recovery", "unencodable-item-between-valid-ones")
 	evid.Check(t, rec, evid.N(300, 800), func(t *rapid.T) {
 		w := &c11World{}
 		w.nch = rapid.IntRange(2, 5).Draw(t, "nch")
@@ -85,6 +91,7 @@ func TestC11FanOut(t *testing.T) {
 		for p := 0; p < np; p++ {
 			n := rapid.IntRange(5, 70).Draw(t, "nops")
 			var prog []wop
+			nUnenc := 0
 			for i := 0; i < n; i++ {
 				o := wop{kind: rapid.SampledFrom([]string{"MsgAll", "MsgTo", "MsgExcept", "FrameAll", "FrameTo", "FrameExcept"}).Draw(t, "op")}
 				o.target = rapid.IntRange(0, w.nch-1).Draw(t, "target")
@@ -95,6 +102,12 @@ func TestC11FanOut(t *testing.T) {
 				}
 				o.raw = rapid.Bool().Draw(t, "raw")
 				o.other = rapid.IntRange(0, 3).Draw(t, "other_version") == 0
+				// at most three items per producer that no link can encode: they occupy a queue slot until the
+				// writer refuses them and must not cost any other item its place
+				if strings.HasPrefix(o.kind, "Msg") && nUnenc < 3 && rapid.IntRange(0, 11).Draw(t, "unencodable") == 0 {
+					o.unenc = true
+					nUnenc++
+				}
 				prog = append(prog, o)
 			}
 			w.programs = append(w.programs, prog)
@@ -124,12 +137,13 @@ func TestC11FanOut(t *testing.T) {
 			t.Fatalf("%s%v", w.describe(), err)
 		}
 		var cls []string
-		hasTo, hasExcept, closedT, foreignT := false, false, false, false
+		hasTo, hasExcept, closedT, foreignT, unencT := false, false, false, false, false
 		for _, prog := range w.programs {
 			for _, o := range prog {
 				hasTo = hasTo || strings.HasSuffix(o.kind, "To")
 				hasExcept = hasExcept || strings.HasSuffix(o.kind, "Except")
 				closedT = closedT || o.target == -1
+				unencT = unencT || o.unenc
 				foreignT = foreignT || o.target == -2
 			}
 		}
@@ -142,6 +156,9 @@ func TestC11FanOut(t *testing.T) {
 		}
 		if foreignT {
 			cls = append(cls, "foreign-target")
+		}
+		if unencT {
+			cls = append(cls, "unencodable-item-between-valid-ones")
 		}
 		if w.v2 {
 			cls = append(cls, "v2")
@@ -419,6 +436,9 @@ func runC11(w *c11World) error {
 				}
 				isFrame := strings.HasPrefix(o.kind, "Frame")
 				wantMu.Lock()
+				if o.unenc {
+					ts = nil // nothing of it may reach any wire; it is not counted for flow control either
+				}
 				for _, c := range ts {
 					atomic.AddInt64(&exp[c], 1)
 					want[c] = append(want[c], item{p, i, isFrame})
@@ -444,7 +464,10 @@ func runC11(w *c11World) error {
 							err = n.WriteFrameExcept(handle(o.target), fr)
 						}
 					} else {
-						m := &common.MessageDebug{TimeBootMs: uint32(i), Ind: byte(p), Value: 2.5}
+						var m message.Message = &common.MessageDebug{TimeBootMs: uint32(i), Ind: byte(p), Value: 2.5}
+						if o.unenc {
+							m = &message.MessageRaw{ID: 999999, Payload: []byte{byte(p), byte(i), 3}}
+						}
 						switch o.kind {
 						case "MsgAll":
 							err = n.WriteMessageAll(m)
@@ -461,7 +484,7 @@ func runC11(w *c11World) error {
 					failure.Store(fmt.Sprintf("producer %d op %d %s did not return within %v", p, i, o, bound))
 					return
 				}
-				if err != nil {
+				if err != nil && !o.unenc { // an item no link can encode may be refused in the caller
 					failure.Store(fmt.Sprintf("producer %d op %d %s returned %v", p, i, o, err))
 					return
 				}
